@@ -71,7 +71,7 @@ fn pipelines() -> Vec<Pl> {
 }
 
 /// the documented grouping applied to printed rows (key = their `k` member)
-fn group_rows(rows: &[V], g: &Group) -> V {
+pub fn group_rows(rows: &[V], g: &Group) -> V {
     match g {
         Group::Merge => V::Arr(rows.to_vec()),
         Group::By(_) => {
@@ -89,7 +89,7 @@ fn group_rows(rows: &[V], g: &Group) -> V {
     }
 }
 
-fn wrap_for_split(rows: &[V]) -> Vec<V> {
+pub fn wrap_for_split(rows: &[V]) -> Vec<V> {
     rows.chunks(2).map(|c| V::Obj(vec![("rows".into(), V::Arr(c.to_vec()))])).collect()
 }
 
